@@ -587,6 +587,12 @@ class Machine(object):
             miss = self.miss_fn(f)
         else:
             miss = self.miss[idx] if idx < len(self.miss) else set()
+        # chips ignore a fill that repeats the identifier of the previous one
+        # (nearest-neighbour duplicate suppression, sv.last_id)
+        if getattr(self, "last_fill_id", None) == f["pid"]:
+            miss = set(self.chips)
+            f["ignored_as_duplicate"] = True
+        self.last_fill_id = f["pid"]
         f["missed_by"] = set(miss)
         if not complete:
             return
